@@ -18,6 +18,30 @@ def rdBox {α} [Codec α] (c : Ctx) : Rd (V3 α × V3 α) := do
   let hi ← Rd.v3 c
   pure (lo, hi)
 
+/-- the `q` argument: kind `i0` = `(N,3)` array, `i1` = `(3,)` array, `i2` = nested list, `i3` = flat list;
+    always followed by a length-prefixed list of vectors (the first one is used for the flat kinds) -/
+def rdQArg {α} [Codec α] (c : Ctx) : Rd (FF.QArg α) := do
+  let kind ← Rd.nat c
+  let qs : List (V3 α) ← Rd.list c (Rd.v3 c)
+  let hd := qs.headD ⟨Codec.decode 0, Codec.decode 0, Codec.decode 0⟩
+  pure (match kind with
+    | 0 => .arr2 qs
+    | 1 => .arr1 hd
+    | 2 => .list2 qs
+    | _ => .list1 hd)
+
+/-- optional density: `i0` = omitted, `i1 <scalar>` = given -/
+def rdDensity {α} [Codec α] (c : Ctx) : Rd (Option α) := do
+  let has ← Rd.nat c
+  if has = 0 then pure none else do
+    let d ← Rd.sc c
+    pure (some d)
+
+def reply {α} [Codec α] (r : Except String (List (Cx α))) : String :=
+  match r with
+  | .ok l => cxs l
+  | .error e => s!"E:{e}"
+
 /-- driver ops of C12. `none` = unknown op.
     `mode`: i0 = the batch model (masks, as the Python), i1 = map of the single-q model. -/
 def run (α : Type) [Scalar α] [Codec α] (op : String) (c : Ctx) : Option (Rd String) :=
@@ -57,6 +81,34 @@ def run (α : Type) [Scalar α] [Codec α] (op : String) (c : Ctx) : Option (Rd 
       let rho : α ← Rd.sc c
       let out := if mode = 0 then FF.sphereFFBatch r ctr qs rho else qs.map (FF.sphereFF r ctr · rho)
       pure (cxs out)
+  | "ff.call.polygon" => some do
+      -- in: verts normal qarg density? ; out: (re im) per returned entry | E:<kind>
+      let vs : List (V3 α) ← Rd.list c (Rd.v3 c)
+      let n : V3 α ← Rd.v3 c
+      let qa ← rdQArg c
+      let d ← rdDensity c
+      pure (reply (FF.polygonCall vs n qa d))
+  | "ff.call.polyhedron" => some do
+      let faces : List (FF.Face α) ← Rd.list c (rdFace c)
+      let vol : α ← Rd.sc c
+      let qa ← rdQArg c
+      let d ← rdDensity c
+      pure (reply (FF.polyhedronCall faces vol qa d))
+  | "ff.call.sphere" => some do
+      let r : α ← Rd.sc c
+      let ctr : V3 α ← Rd.v3 c
+      let qa ← rdQArg c
+      let d ← rdDensity c
+      pure (reply (FF.sphereCall r ctr qa d))
+  | "ff.tricheck" => some do
+      -- in: verts tris ; out: triangulationCheck (exact in Q mode)
+      let vs : List (V3 α) ← Rd.list c (Rd.v3 c)
+      let ts : List (Tri α) ← Rd.list c (Rd.tri c)
+      pure (Out.bool (FF.triangulationCheck vs ts))
+  | "ff.surface_closed" => some do
+      -- in: list of faces, each a list of vertices ; out: surfaceClosedCheck (exact in Q mode), #fan triangles
+      let fs : List (List (V3 α)) ← Rd.list c (Rd.list c (Rd.v3 c))
+      pure s!"{Out.bool (FF.surfaceClosedCheck fs)} {Out.int (FF.surfaceOfVerts fs).length}"
   | "spec.ff.boxes" => some do
       let boxes : List (V3 α × V3 α) ← Rd.list c (rdBox c)
       let qs : List (V3 α) ← Rd.list c (Rd.v3 c)
